@@ -99,6 +99,20 @@ Lemma frame_remove_custom_l : forall W obj h h' r,
   remove_custom_stix as_written W obj h = (h', r) -> unchanged h h'.
 Proof. intros. apply grows_unchanged. eapply remove_custom_stix_grows; eauto. apply safe_as_written. Qed.
 
+Lemma frame_clear_opts_l : forall W mr lg obj selectors h h' r,
+  granular_clear_f as_written W mr lg obj selectors h = (h', r) -> unchanged h h'.
+Proof. intros. apply grows_unchanged. eapply granular_clear_f_grows; eauto. apply safe_as_written. Qed.
+
+Lemma frame_set_opts_l : forall W mr lg obj marking selectors h h' r,
+  granular_set_f as_written W mr lg obj marking selectors h = (h', r) -> unchanged h h'.
+Proof. intros. apply grows_unchanged. eapply granular_set_f_grows; eauto. apply safe_as_written. Qed.
+
+Lemma frame_deduplicate_l : forall lst h h' r, deduplicate lst h = (h', r) -> unchanged h h'.
+Proof. intros. apply grows_unchanged. eapply deduplicate_grows; eauto. Qed.
+
+Lemma frame_copy_l : forall v h h' r, shallow_copy v h = (h', r) -> unchanged h h'.
+Proof. intros. apply grows_unchanged. eapply shallow_copy_grows; eauto. Qed.
+
 Lemma frame_bundle_l : forall W cls args kw h h' r,
   bundle as_written W cls args kw h = (h', r) -> unchanged h h'.
 Proof. intros. apply grows_unchanged. eapply bundle_grows; eauto. apply safe_as_written. Qed.
